@@ -3,6 +3,7 @@ package main
 // Verification-condition generation from go/ssa (passive form, loops cut at contracted headers).
 
 import (
+	"os"
 	"fmt"
 	"go/constant"
 	"go/token"
@@ -73,6 +74,7 @@ type FnVC struct {
 	pendingSite      string
 	immut            map[*ssa.Alloc]ssa.Value
 	siteOrd          map[ssa.Instruction]int
+	fvConst          map[*ssa.FreeVar]Term // immutable captured variables: one constant per variable
 	lenient          bool     // salvage mode after a shape mismatch: call-site clauses that cannot be bound are skipped (recorded in skipped)
 	skipped          []string
 	cellOf           map[types.Object]ssa.Value // variables that live in a cell (closure-captured or address-taken)
@@ -923,6 +925,8 @@ func (vc *FnVC) loopWrites(l *Loop) (set map[string]bool, all bool) {
 					sites[fmt.Sprintf("%s#%d", calleeShort(x.Common()), vc.siteOrdinal(x, calleeShort(x.Common())))] = true
 					if bi, ok := x.Common().Value.(*ssa.Builtin); ok && bi.Name() == "delete" {
 						sites["delete:*"] = true
+						n, o := vc.mapSiteNameOrd("delete", x.Common().Args[0], x.Pos())
+						sites[fmt.Sprintf("%s#%d", n, o)] = true
 					}
 					if fn, ok := x.Common().Value.(*ssa.Function); ok && fn.Pkg != nil && fn.Pkg.Pkg.Path() == "sync/atomic" {
 						sites["atomic.*"] = true
@@ -935,6 +939,8 @@ func (vc *FnVC) loopWrites(l *Loop) (set map[string]bool, all bool) {
 					}
 				case *ssa.MapUpdate:
 					sites["mapupdate:*"] = true
+					n, o := vc.mapSiteNameOrd("mapupdate", x.Map, x.Pos())
+					sites[fmt.Sprintf("%s#%d", n, o)] = true
 				}
 			}
 		}
@@ -950,6 +956,13 @@ func (vc *FnVC) loopWrites(l *Loop) (set map[string]bool, all bool) {
 				if strings.HasPrefix(g.Callee, pre) && (sites[pre+"*"] || sites["mapupdate:*"] && pre == "mapupdate") {
 					hit = true
 				}
+			}
+			// map sites named with an ordinal: only that very site counts
+			if g.Ordinal != 0 && (strings.HasPrefix(g.Callee, "mapupdate") || strings.HasPrefix(g.Callee, "delete")) {
+				hit = sites[fmt.Sprintf("%s#%d", g.Callee, g.Ordinal)]
+			}
+			if os.Getenv("GOVC_DEBUG_SITES") != "" {
+				fmt.Fprintf(os.Stderr, "loop %d: ghost hook %s#%d hit=%v sites=%v\n", l.Ordinal, g.Callee, g.Ordinal, hit, sites)
 			}
 			if hit {
 				set["G$"+ghostTargetName(g.Upd.Target)] = true
